@@ -148,7 +148,9 @@ func execLocalObserved(w *ATWorld, cs *ATCase, cid string) *localObs {
 						wsql, wargs := st.WhereSQL(sc)
 						step.matched, _ = tableByKey(ctx, tx, sc, wsql, wargs)
 					}
+					disarm := st.Arm(w.Eng, sc.Table)
 					_, step.err = tx.ExecContext(ctx, q, args...)
+					disarm()
 					if step.err == nil {
 						step.after, _ = tableByKey(ctx, tx, sc, "", nil)
 					}
@@ -172,7 +174,9 @@ func execLocalObserved(w *ATWorld, cs *ATCase, cid string) *localObs {
 					wsql, wargs := st.WhereSQL(sc)
 					step.matched, _ = tableByKey(ctx, w.Bare, sc, wsql, wargs)
 				}
+				disarm := st.Arm(w.Eng, sc.Table)
 				_, step.err = w.DB.ExecContext(ctx, q, args...)
+				disarm()
 				if step.err == nil {
 					step.after, _ = tableByKey(ctx, w.Bare, sc, "", nil)
 				}
